@@ -15,7 +15,7 @@ const (
 
 // rawAlphabet is Χ of DESIGN §5 C07: 13 "characters" (the last two are a 2-byte rune and a lone
 // invalid UTF-8 byte).
-var rawAlphabet = []string{"0", "1", "9", ".", "-", "+", "~", ":", "a", "_", " ", "é", "\xff"}
+var rawAlphabet = []string{"0", "1", "9", ".", "-", "+", "~", ":", "a", "_", " ", "é", "\xff", "٣"} // the last one is a non-ASCII decimal digit (category Nd)
 
 // globalTokens is the part of Τ shared by all ecosystems.
 var globalTokens = []string{
@@ -155,6 +155,8 @@ func genMaven(th bool) []string {
 	}
 	out := cross(nums, q)
 	out = append(out, "01", "1.01", "1.0-alpha-01", BIG, "1."+BIG, "1.0-alpha-"+BIG, "1-"+BIG, BIG2)
+	// all-zero multi-digit components in every position
+	out = append(out, "1.00.1", "1.00.5", "1.000.1", "00.1", "1.0.00", "3.00.2", "1.00", "1.00-alpha-1", "1.00.1-rc-1", "2.00.0")
 	return out
 }
 
